@@ -156,7 +156,7 @@ func init() {
 	}
 	c18 := mix("C18", parts)
 	c18.Rule = "workloads = the seeded scripts of the other worlds in rotation (broker: routing with in-process Publish/Subscribe, retained updates racing with subscriptions, teardown under delivery and Server.Close, fan-in, wills, session churn, attackers; ring; ack queue; topic store), plus the complete enumerations of those worlds (teardown grid, truncation points and short remaining lengths of every packet type), executed by a worker built with -race in which only the library (and the byte-copy helper of the simulated transport) is instrumented: baton hand-offs of the simulator create no happens-before edge, the shims perform the real sync/atomic operation next to the simulated one, so ThreadSanitizer sees exactly the library's own synchronisation under a seeded, replayable schedule. A violation is a race report whose two accesses are both in code of github.com/mdzio/go-mqtt. Non-trivial = the workload's own criterion; distinct = schedule hash."
-	c18.QuickRuns, c18.ThoroughRuns = 6000, 200000
+	c18.QuickRuns, c18.ThoroughRuns = 6000, 500000
 	c18.Assumptions = []string{
 		"ThreadSanitizer reports a race only if both accesses occur in the run and are unordered by the library's own synchronisation (they need not be adjacent in time)",
 		"sync.Cond, Mutex, RWMutex, WaitGroup, Once and sync/atomic are modelled by shims that execute the real primitive as well; channel close/receive on done channels is real",
